@@ -7,7 +7,7 @@
      res  := ok | lm<l> | tm<l>.<r> | gm<il>.<ir>.<tl>.<tr>.<cl>.<cr> | av<l>.<r>
    commands:
      run  <n> <ev>...   -> the state line after every event, joined by " ;; "
-     flags <n> <ev>...  -> es=<0|1> agree=<0|1> lc=<0|1> dv=.. sv=.. ad=.. ot=..   (oracles / KnownClass on the model's run)
+     flags <n> <ev>...  -> es=<0|1> agree=<0|1> lc=<0|1> dv=.. sv=.. ad=.. ot=.. av=..   (oracles / KnownClass on the model's run)
    events: (T i elapsed (j ...)) (D k elapsed) (X k) (U k) (A i d); numbers decimal *)
 open Model
 open Util
@@ -65,8 +65,8 @@ let handle (cmd : string) (args : sexp list) : string =
   | "flags", A n :: evs ->
     let c = run (n_of_s n) (List.map ev_of_sexp evs) in
     let h = c.c_hist in
-    Printf.sprintf "es=%s agree=%s lc=%s dv=%s sv=%s ad=%s ot=%s"
+    Printf.sprintf "es=%s agree=%s lc=%s dv=%s sv=%s ad=%s ot=%s av=%s"
       (b (election_safety_b h)) (b (committed_agree_b c)) (b (leader_completeness_b h))
-      (b (double_vote_b h)) (b (stale_vote_b h)) (b (ack_diverged_b h)) (b (old_term_commit_b h))
+      (b (double_vote_b h)) (b (stale_vote_b h)) (b (ack_diverged_b h)) (b (old_term_commit_b h)) (b (ack_below_vote_b h))
   | "init", [A n] -> str_cluster (init_default (n_of_s n))
   | _ -> failwith ("raft: bad command " ^ cmd)
